@@ -184,3 +184,101 @@ func c21IsFullFlag(v ssa.Value, depth int) bool {
 
 	return false
 }
+
+// R-C21-7: a revocation lookup that failed leaves nothing in the revocation
+// cache. IsBlacklisted and IsIDBlacklisted cache what the store answered so
+// that the next lookup is served from memory; if the "not revoked" sentinel is
+// cached on a path where the read failed with anything but "not found", every
+// later request carrying a revoked token is accepted from the cache (and each
+// hit renews the entry).
+func c21FailedLookupNotCached(w *World, r *Report) {
+	r.Rule("R-C21-7", "in tokens.IsBlacklisted and tokens.IsIDBlacklisted no caches.Add on the revocation cache is reachable from the store read once the edges 'the read error is nil' and 'the read error is ErrNotFound' are removed", 2)
+
+	tp := w.pkg("internal/language/tokens")
+	if tp == nil {
+		return
+	}
+
+	for _, name := range []string{"IsBlacklisted", "IsIDBlacklisted"} {
+		fn := w.ssaFunc(tp, name)
+		if fn == nil {
+			r.Anchor("R-C21-7", "tokens."+name)
+
+			continue
+		}
+
+		var read *ssa.Call
+
+		allInstrs(fn, func(in ssa.Instruction) {
+			if c, ok := in.(*ssa.Call); ok && callID(c.Common()) == "internal/resources.ResHandle.Read" {
+				read = c
+			}
+		})
+
+		key := "tokens." + name + "|failed lookup not cached"
+
+		if read == nil {
+			r.Anchor("R-C21-7", "the store read in tokens."+name)
+
+			continue
+		}
+
+		isReadErr := func(v ssa.Value) bool {
+			return derivesFrom(v, func(s ssa.Value) bool {
+				e, ok := s.(*ssa.Extract)
+
+				return ok && e.Tuple == ssa.Value(read) && e.Index == 1
+			}, nil)
+		}
+
+		cuts := cutEdges(fn, func(f Fact) bool {
+			switch f.Kind {
+			case "nil":
+				return isReadErr(f.V)
+			case "true":
+				c, ok := f.V.(*ssa.Call)
+				if !ok || !strings.HasSuffix(callID(c.Common()), "errors.Equal") && !strings.HasSuffix(callID(c.Common()), "errors.Equals") {
+					return false
+				}
+
+				hasErr, hasNotFound := false, false
+
+				for _, a := range c.Call.Args {
+					if isReadErr(a) {
+						hasErr = true
+					}
+
+					if derivesFrom(a, func(s ssa.Value) bool {
+						g, isG := s.(*ssa.Global)
+
+						return isG && g.Name() == "ErrNotFound"
+					}, nil) {
+						hasNotFound = true
+					}
+				}
+
+				return hasErr && hasNotFound
+			}
+
+			return false
+		})
+
+		if len(cuts) == 0 {
+			r.Violate("R-C21-7", key, w.pos(read.Pos()), "the error of the revocation store read is never tested")
+
+			continue
+		}
+
+		hit := pathAvoiding(read, cuts, func(ssa.Instruction) bool { return false }, func(i ssa.Instruction) bool {
+			c, ok := i.(*ssa.Call)
+
+			return ok && callID(c.Common()) == "internal/caches.Add"
+		})
+
+		if hit != nil {
+			r.Violate("R-C21-7", key, w.pos(hit.Pos()), "the revocation cache is filled on a path where the store read failed (neither answered nor reported 'not found'): the failed lookup's request is refused, but the cached 'not revoked' entry decides every later request for that token, and each hit renews it")
+		} else {
+			r.Discharge("R-C21-7", key, w.pos(read.Pos()), "cache fills only behind a nil or not-found read error")
+		}
+	}
+}
